@@ -170,7 +170,12 @@ def gen_history(rng):
     elif rhs[0] == 'list' and rhs[1] and rhs[1][0][0] == 'obj' and rhs[1][0][2]:
         blobtext = rhs[1][0][1]
     for _ in range(rng.choice([0, 1, 2, 3, 4, 6, 9])):
-        if blobtext is not None and rng.random() < 0.2:
+        prev_objs = [i for i, o in enumerate(ops) if o[0] == 'obj' and not o[2] and len(o) == 4]
+        if prev_objs and rng.random() < 0.2:
+            # the caller passes the very same Term object again (AddTerm must have copied it)
+            k = rng.choice(prev_objs)
+            ops.append(list(ops[k]) + ['same', k])
+        elif blobtext is not None and rng.random() < 0.2:
             ops.append(['str', rng.choice(FORMS[:6]) % blobtext.strip()])
         else:
             ops.append(gen_targ(rng, names, blob_ok=rng.random() < 0.3))
@@ -241,8 +246,14 @@ def run_history(h):
     res['init'] = ['ok', str(eq)]
     res['rhs0'] = eq.RHS()
     res['opaque'] = [any(t.IsBlob for t in eq.TermList)]
-    for t in h['ops']:
-        a, d = make_targ(t)
+    made = {}
+    for i, t in enumerate(h['ops']):
+        if len(t) > 4 and t[5] in made:
+            a, d = made[t[5]]
+        else:
+            a, d = make_targ(t)
+            if d is not None:
+                made[i] = (a, list(d))
         res['targs'].append(d)
         try:
             eq.AddTerm(a)
